@@ -209,17 +209,140 @@ func checkC06(c *fw.Ctx) {
 	got := map[string][]string{}
 	nUpd, nOther := 0, 0
 	stopMapping0 := func(f *ssa.Function) bool { return fw.FuncName(f) == "gmsl.validateMXIDMappingSignatures" }
+	// an insertion into the required-signer collection: an update of a set of server names, an
+	// append to a list of server names, or a call of a local function literal that does one of
+	// these with its parameter (`need(x)`); the key is resolved per alternative when it merges
+	// several values (`origin` assigned on two branches), each under its own condition
+	type insertion struct {
+		at   ssa.Instruction
+		fr   *fw.Frame
+		key  ssa.Value
+		more []string // conditions of the alternative, beyond those of the insertion's block
+	}
+	isServerName := func(t types.Type) bool { return strings.HasSuffix(fw.Short(t.String()), "spec.ServerName") }
+	insertsParam := func(lit *ssa.Function) bool {
+		if lit == nil || len(lit.Params) != 1 || !isServerName(lit.Params[0].Type()) {
+			return false
+		}
+		for _, b := range lit.Blocks {
+			for _, ins := range b.Instrs {
+				switch x := ins.(type) {
+				case *ssa.MapUpdate:
+					if x.Key == ssa.Value(lit.Params[0]) {
+						return true
+					}
+				case *ssa.Call:
+					if fw.CalleeName(x) == "builtin.append" && len(x.Call.Args) == 2 {
+						if elems, ok := fw.VariadicElems(x.Call.Args[1]); ok {
+							for _, e := range elems {
+								if e == ssa.Value(lit.Params[0]) {
+									return true
+								}
+							}
+						}
+					}
+				}
+			}
+		}
+		return false
+	}
+	var raw []insertion
 	for _, di := range fw.DeepInstrs(fn, stopMapping0) {
-		mu, ok := di.Instr.(*ssa.MapUpdate)
-		if !ok || !strings.Contains(fw.Short(mu.Map.Type().Underlying().String()), "map[gmsl/spec.ServerName]struct{}") {
+		switch x := di.Instr.(type) {
+		case *ssa.MapUpdate:
+			if strings.Contains(fw.Short(x.Map.Type().Underlying().String()), "map[gmsl/spec.ServerName]struct{}") {
+				// (inside a `need` literal the key is its parameter: that site is represented by the calls)
+				if p, isP := x.Key.(*ssa.Parameter); isP && p.Parent().Parent() != nil && insertsParam(p.Parent()) {
+					continue
+				}
+				raw = append(raw, insertion{at: x, fr: di.Fr, key: x.Key})
+			}
+		case *ssa.Call:
+			if sc := x.Call.StaticCallee(); sc != nil && sc.Parent() != nil && !x.Call.IsInvoke() && insertsParam(sc) {
+				// a call of a function literal (free variables are not among Args)
+				if len(x.Call.Args) >= 1 {
+					raw = append(raw, insertion{at: x, fr: di.Fr, key: x.Call.Args[len(x.Call.Args)-1]})
+				}
+				continue
+			}
+			if x.Call.IsInvoke() || x.Call.StaticCallee() != nil || len(x.Call.Args) != 1 {
+				if fw.CalleeName(x) == "builtin.append" && len(x.Call.Args) == 2 {
+					if sl, isSl := x.Call.Args[0].Type().Underlying().(*types.Slice); isSl && isServerName(sl.Elem()) {
+						if p := x.Parent(); p.Parent() != nil && insertsParam(p) {
+							continue // the body of a `need` literal
+						}
+						if elems, ok := fw.VariadicElems(x.Call.Args[1]); ok {
+							for _, e := range elems {
+								raw = append(raw, insertion{at: x, fr: di.Fr, key: e})
+							}
+						}
+					}
+				}
+				continue
+			}
+			if lit := fw.ClosureTarget(x.Call.Value); insertsParam(lit) {
+				raw = append(raw, insertion{at: x, fr: di.Fr, key: x.Call.Args[0]})
+			}
+		}
+	}
+	// split merged keys into their alternatives
+	var ins []insertion
+	for _, r := range raw {
+		if _, isPhi := r.key.(*ssa.Phi); !isPhi {
+			ins = append(ins, r)
 			continue
 		}
+		rows, err := fw.ValueRows(r.at.Parent(), r.key, r.at.Block())
+		if err != nil || len(rows) == 0 {
+			ins = append(ins, r)
+			continue
+		}
+		for _, vr := range rows {
+			if _, isC := vr.Val.(*ssa.Const); isC {
+				continue // a zero value: not a server (the insertion is guarded against it or it is harmless)
+			}
+			for _, term := range vr.Cond {
+				var more []string
+				for _, l := range term {
+					more = append(more, l.String())
+				}
+				if more == nil {
+					more = []string{}
+				}
+				ins = append(ins, insertion{at: r.at, fr: r.fr, key: vr.Val, more: more})
+			}
+		}
+	}
+	for _, in := range ins {
 		nUpd++
-		cls, okOperands := classify2(fw.SigIn(di.Fr, mu.Key))
-		atomList := atomiseFacts(fw.DeepFacts(di.Fr, mu.Block()), rules, ignore)
+		cls, okOperands := classify2(fw.SigIn(in.fr, in.key))
+		facts := append([]string{}, fw.DeepFacts(in.fr, in.at.Block())...)
+		// of the alternative's own path condition only the atoms the table knows matter (the
+		// rest are the error tests and loop tests met on the way)
+		for _, m := range in.more {
+			if a := atomiseFacts([]string{m}, rules, ignore); len(a) == 1 && !strings.HasPrefix(a[0], "OTHER:") {
+				facts = append(facts, m)
+			}
+		}
+		// a test that the key itself is not empty guards against the zero value, nothing else
+		var kept []string
+		for _, f := range facts {
+			t := strings.TrimPrefix(f, "!")
+			// (only for a key that merges several values: the test of the merged variable
+			// against "" guards against the branch that assigned nothing)
+			if (strings.HasSuffix(t, ` == "")`) && strings.HasPrefix(f, "!") || strings.HasSuffix(t, ` != "")`) && !strings.HasPrefix(f, "!")) && strings.Contains(t, "phi(") && in.more != nil {
+				continue
+			}
+			if strings.Contains(t, "next(range(") || strings.Contains(t, "< builtin.len(") {
+				continue // the de-duplication loop of a list-based collection
+			}
+			kept = append(kept, f)
+		}
+		atomList := atomiseFacts(kept, rules, ignore)
 		atoms := strings.Join(atomList, ",")
 		exp, known := want[cls]
 		construct := "required signer: " + cls
+		pos := c.P.Pos(fw.InstrPos(in.at))
 		if !known {
 			// a key whose provenance is not recognised: the rule cannot tell what it is
 			nOther++
@@ -232,10 +355,10 @@ func checkC06(c *fw.Ctx) {
 			continue
 		}
 		if !okOperands {
-			c.Fail("1 needed-table", construct, c.P.Pos(fw.InstrPos(mu)), "the "+cls+" is computed from "+fw.SigIn(di.Fr, mu.Key)+", not from the event field the specification names")
+			c.Fail("1 needed-table", construct, pos, "the "+cls+" is computed from "+fw.SigIn(in.fr, in.key)+", not from the event field the specification names")
 			continue
 		}
-		c.Check(sameAtoms(atomList, exp), "1 needed-table", construct, c.P.Pos(fw.InstrPos(mu)), "when {"+atoms+"}", fmt.Sprintf("the %s is required when {%s}; the specification requires it exactly when {%s}", cls, atoms, exp))
+		c.Check(sameAtoms(atomList, exp), "1 needed-table", construct, pos, "when {"+atoms+"}", fmt.Sprintf("the %s is required when {%s}; the specification requires it exactly when {%s}", cls, atoms, exp))
 	}
 	c.Min("1 needed-table insertions", nUpd, 6)
 	for cls := range want {
